@@ -209,6 +209,9 @@ def run(ctx, res):
         if i % 3 == 0:
             # bytes that some text APIs treat as line boundaries but the Lua lexer does not, inside a long string and a comment
             src = b'--[[h\x0ci]]\nlocal s=[[a\x0cb\x0bc\x1cd\x1de\x85f]] q="\x0c"\n' + src
+        if i % 3 == 1:
+            # empty lines and blank-only lines inside long strings and block comments are part of the string value / stay inside the comment
+            src = b'local t=[[one\n\n\nfour\n]] u=[==[\n\n]==] v=[[\n \n\t\n]]\n--[[c\n\n]]\n' + src
         try:
             g = U.make_game(rng=rng, code=src, version=8)
         except Exception:
